@@ -109,3 +109,24 @@ check('C09',
       'thorough re-applies a second arbitrary operation to the post-state.',
       'pre-state generator bounds; exceptions raised by the engine\'s own '
       'bookkeeping are C10\'s (counted as cut_foreign_exception)')
+check('C07',
+      'An observer process with a glob port (declaring one sub-variable), a '
+      'dict port on a store holding extra variables, a scalar port with ".." '
+      'wiring and an output-only port compares, at all three callbacks, its '
+      'states with the harness\'s own projection of the current hierarchy '
+      'while an actor issues structural histories (7 operation kinds, length '
+      '1-2(3)) at symbolic times; shape is a concrete fact per path, every '
+      'leaf value equality is solver-decided.',
+      'in-flight move/divide crashes are C10 findings and end the path here '
+      '(counted); "**" ports outside')
+check('C10',
+      'Structural histories (add, delete, generate, divide with explicit or '
+      'copied processes, move out/in; length 1-2(3)) over agents holding pure '
+      'processes, flow steps or legacy derivers, issued at symbolic times so '
+      'that updates are in flight: on every feasible path the solver shows '
+      'contiguous per-instance schedules (creation time = application time of '
+      'the creating update), only live objects invoked, each live step once '
+      'per phase, published composite = hierarchy as leaf maps, and a second '
+      'engine rebuilt from the published composite emitting equal rows.',
+      'bookkeeping claim reads engine internals when present; two in-flight '
+      'families are listed known findings')
